@@ -8,7 +8,7 @@ import numpy as np
 
 from .common import Violation, HarnessError, dec_key, dec_label, sort_key
 from .refpoly import RefPoly, BOOL, SPIN, frac
-from .refcons import RefConstraints, check_penalty, RELS
+from .refcons import RefConstraints, check_penalty, RELS, effective_bounds
 from .e1_pool import Slot, MATRIX, DEG2, LABELLED, CONSTRAINED, okey, brief, maxabs
 
 
@@ -161,8 +161,6 @@ def do_info(w, a, A, stale):
         pass
     w.check_untouched(set(), where + " (after mutating the info dict)")
     w.probe("info_roundtrips")
-    if stale and w.prop == "C14":
-        return "info-stale"      # a reconstruction of a stale model is outside C14's "documented edits"
     cons = w.read_constraints(res) if A.t in CONSTRAINED else None
     s = Slot(res, A.t, A.shadow.copy(), cons, set(A.issued))
     s.foreign = A.foreign
@@ -430,8 +428,8 @@ def do_pure(w, op):
             if ok and (A.t != "dict" or all(len(set(k)) == len(k) for k in keys)):
                 tmp = (qv.PCBO if b else qv.PCSO)()
                 rel = rnd.choice(RELS)
-                lo, hi = A.shadow.extrema()
-                if hi - lo <= 6:
+                lo, hi = effective_bounds(A.shadow, None)
+                if max(abs(lo), abs(hi), hi - lo) <= 8:
                     getattr(tmp, "add_constraint_%s_zero" % rel)(o, lam=rnd.choice([1, 2]), log_trick=rnd.random() < 0.5) if rel != "eq" else \
                         tmp.add_constraint_eq_zero(o, lam=rnd.choice([1, 2]))
                     # the recorded constraint must be independent of the argument
@@ -545,6 +543,12 @@ def do_cons(w, op):
         kw["bounds"] = (None, int(hi) + 1)
     elif mode == "both":
         kw["bounds"] = (int(lo), int(hi))
+    elo, ehi = effective_bounds(Pref, kw.get("bounds"))
+    mag = max(abs(elo), abs(ehi), ehi - elo)       # unary slack: one ancilla per unit of min_val / range
+    if mag > 200:
+        return "skipped"
+    if mag > 8 and rel != "eq":
+        kw["log_trick"] = True
     where = "%s.add_constraint_%s_zero(%r, %r)" % (A.t, rel, Pref, kw)
     H_before = w.stored_poly(A)
     anc_before = o.num_ancillas
